@@ -507,6 +507,20 @@ impl<T> Block for NoCopyFileSink<T>""")]),
         for (to, from)""")]),
     dict(name="f23-reverted-auencode-waits-for-one-byte", prop="C09", expect="C09.R4:<au::AuEncode as block::Block>::work:need(dst)",
          edits=[E("src/au.rs", "            return Ok(BlockRet::WaitForStream(&self.dst, ss));", "            return Ok(BlockRet::WaitForStream(&self.dst, 1));")]),
+    dict(name="f24-reverted-zerocrossing-clock-room-unchecked", prop="C09", expect="C09.R11:<zero_crossing::ZeroCrossing as block::Block>::work:index",
+         edits=[E("src/zero_crossing.rs", """        if max_out == 0 {
+            // `o` is not empty, so it's the clock stream that is full.
+            return Ok(match self.out_clock.as_ref() {
+                Some(c) => BlockRet::WaitForStream(c, 1),
+                None => BlockRet::WaitForStream(&self.dst, 1),
+            });
+        }
+""", "")]),
+    dict(name="f25-reverted-symbolsync-clock-room-ignored", prop="C09", expect="C09.R11:<symbol_sync::SymbolSync as block::Block>::work:index",
+         edits=[E("src/symbol_sync.rs", """        let olen = match out_clock {
+            Some(ref c) => std::cmp::min(o.len(), c.len()),
+            None => o.len(),
+        };""", """        let olen = o.len();""")]),
     # mutations of REFACTORED shapes (an independently written behaviour-preserving refactor + a one-line break): the rules
     # must keep their teeth on the refactored code, not merely fall silent on it
     dict(name="m3r4+busy-arm-forgets-done", prop="C06", expect="C06.R1:<graph::Graph as graph::GraphRunner>::run:Again",
